@@ -446,6 +446,20 @@ bool Importer::ImporterImpl::fetchImportSource(const ImportSourcePtr &importSour
         if (!fetchModel(importSource, baseFile)) {
             return false;
         }
+    } else {
+        // The errors found when this model was read concern every import made through this import source.
+        auto model = importSource->model();
+        for (const auto &entry : mLibrary) {
+            if (entry.second == model) {
+                auto libraryErrors = mLibraryErrors.find(entry.first);
+                if (libraryErrors != mLibraryErrors.end()) {
+                    for (const auto &error : libraryErrors->second) {
+                        addIssue(error);
+                    }
+                }
+                break;
+            }
+        }
     }
 
     return true;
